@@ -312,6 +312,7 @@ fn run_pd(prop: &str, mut t: Tape) -> CaseOutcome {
         for c in 0..cycles {
             let pats = plant(&mut w, &specs, &tables, &mem, nonce, c as u64);
             write_outputs(&g, md, &pats);
+            w.sim.seg.lrw_output_area_noise = if w.sim.tape.flag(1, 2, "output_area_noise") { Some(nonce ^ c as u64) } else { None };
             w.sim.seg.record = true;
             w.sim.seg.log.clear();
             let res = w.sim.block_on(g.tx_rx_dc(md));
@@ -414,6 +415,8 @@ fn run_pd(prop: &str, mut t: Tape) -> CaseOutcome {
     for c in 0..cycles {
         let pats = plant(&mut w, &specs, &tables, &mem, nonce, c as u64);
         write_outputs(&g0, md, &pats);
+        // Arbitrary device answers: the output area of the returned image need not echo what was sent.
+        w.sim.seg.lrw_output_area_noise = if w.sim.tape.flag(1, 2, "output_area_noise") { Some(nonce ^ c as u64) } else { None };
         let before: Vec<Vec<u8>> = w.sim.seg.devices.iter().map(|d| d.mem.clone()).collect();
         w.sim.seg.record = true;
         w.sim.seg.log.clear();
